@@ -15,6 +15,7 @@ import logging
 import re
 import os
 import struct
+import threading
 import yaml
 from collections import namedtuple
 
@@ -386,6 +387,7 @@ class SessionHandler:
     init = 0
     id = 0
     optional = "bromelia"
+    lock = threading.Lock()
 
 
     def __init__(self):
@@ -398,11 +400,14 @@ class SessionHandler:
         #: recommended format: 
         #: <DiameterIdentity>;<high 32 bits>;<low 32 bits>[;<optional value>]
 
-        SessionHandler._verify_session_id(previous, current=data)
+        #: Advancing the counter and reading it back is one step: Session-Ids
+        #: are generated from several threads of the same process.
+        with SessionHandler.lock:
+            SessionHandler._verify_session_id(previous, current=data)
 
-        high = SessionHandler.init
-        low = SessionHandler.id
-        optional = SessionHandler.optional
+            high = SessionHandler.init
+            low = SessionHandler.id
+            optional = SessionHandler.optional
 
         return f"{data};{high};{low};{optional}"
 
